@@ -43,7 +43,9 @@ def run_case(ctx, case):
     src = make_curve(U, P, None)
     s0 = curve_state(src)
     dst = Curve(list(S))
-    r = impl(lambda: dst.fit_curve(src) if nodes is None else dst.fit_curve(src, list(nodes)))
+    form = "tuple" if form_of(case) in ("tuple", "generator", "iter") else "list"     # fit_curve documents a tuple of nodes; iterators / arrays are refused loudly (TypeError / ValueError)
+    rec.count("nodes-as", form if nodes is not None else "default")
+    r = impl(lambda: dst.fit_curve(src) if nodes is None else dst.fit_curve(src, as_form(nodes, form)))
     if curve_state(src) != s0:
         rec.violation("fit_curve modified the source curve", case)
     m = drv.call("curve.fitcurve", list(S), None, None, *curve_args(*s0), nodes)
